@@ -2,6 +2,7 @@ import TsRsVerif.Model.Export
 import TsRsVerif.Model.Deps
 import TsRsVerif.Lemmas.DfsLemmas
 import TsRsVerif.Lemmas.ExportLemmas
+import TsRsVerif.Lemmas.WalkSeq
 /-!
 # C11 — an export writes exactly the root's and its dependencies' files
 
@@ -106,6 +107,19 @@ example :
     let w : World := { fs := { nodes := [(["w".toList], .dir)], cwd := ["w".toList] }, reg := [] }
     (exportRec u 6 w [] "./bindings".toList 0).map (fun r => (r.2.1, r.2.2)) = some ([2, 1, 0], Outcome.ok) := by
   decide +kernel
+
+/-- **`export_all` is exactly one `export_into` per reachable exportable type**: a successful walk from `i` has the effect of calling
+`export_into` for a duplicate-free list of types, one after the other, and that list consists of exactly the exportable types
+reachable from `i`; nothing else touches the world. (What such a sequence leaves in each file is C05 / C06:
+`C06_interleaved_history`, `C06_export_to_histories`.) -/
+theorem C11_export_all_is_a_sequence (u : Universe) (fuel : Nat) (w w' : World) (dir : Str) (i : Nat) (seen' : List Nat)
+    (h : exportRec u fuel w [] dir i = some (w', seen', .ok)) :
+    ∃ order : List Nat, order.Nodup ∧ (∀ j, j ∈ order ↔ Reach u i j) ∧ runInto u dir w order = (w', true) := by
+  obtain ⟨order, hs, hnd, _, hrun⟩ := exportRec_seq u dir fuel w [] i w' seen' h
+  refine ⟨order, hnd, ?_, hrun⟩
+  intro j
+  rw [← C11_visits_exactly_reachable u fuel w w' dir i seen' h j, hs]
+  simp
 
 /-- **the three documented locations**: `<TypeScript name>.ts` by default; the given path with `<TypeScript name>.ts` appended
 when `export_to` ends in `/`; the given path verbatim otherwise — whatever its extension (`output_path()` as generated by the
